@@ -5,10 +5,9 @@ import torch
 import torch.nn as nn
 from torch.nn.common_types import _size_2_t, _size_3_t
 from torch.nn.modules.utils import _pair, _triple
-from torch.nn.functional import gumbel_softmax
 
 from ..functional import (
-    GradFactor, bin_op_cnn, bin_op_cnn_walsh, gumbel_sigmoid, soft_raw, soft_walsh, hard_raw, hard_walsh,
+    GradFactor, bin_op_cnn, bin_op_cnn_walsh, gumbel_sigmoid, gumbel_softmax, soft_raw, soft_walsh, hard_raw, hard_walsh,
     WALSH_COEFFICIENTS,
 )
 
